@@ -79,6 +79,21 @@ NOT_APPLICABLE = {
 
 PENDING = {}
 
+# later extensions of the workloads (DESIGN.md 9.7), appended to the texts above
+MORE = {
+    "C03": " Programs also contain constant container globals the codec cannot encode next to tracked ones, dependencies declared as function objects, factory-made twin helpers.",
+    "C05": " Results are also read with the memento the caller itself handed to memoize (no look-up in between), and values the caller keeps alive are re-memoized in another size class.",
+    "C09": " Worker threads also run under copies of the main thread's contextvars context (the way asyncio.to_thread starts them), and two functions obtain external resource handles.",
+    "C10": " Concurrent cases also obtain resource handles in two threads and run threads under copied contextvars contexts; 30 % of the histories inject reported read errors, and the stored records are judged also after a round that failed with the injected error (a storage failure must not become a call's recorded outcome).",
+    "C12": " Evolutions 'tracked global changed' and 'removed' are also delivered inside the running process (module variable re-bound, function deleted - no decorator runs) after the entry was queried once there, without memory cache.",
+    "C13": " Declared dependencies are given as strings or as function objects; programs contain unencodable container globals and factory-made helpers.",
+    "C15": " Roots may have a defaulted third parameter: further partials are derived from the keyword prefix before the batch (a parameter sweep) and the element-wise world may call the root directly with all arguments instead of through the prefix.",
+    "C17": " Some levels fill the partition's dictionary step by step while consulting the partition's own key listing.",
+    "C19": " The read-only flag also arrives through a repository configuration file with a template parameter that is loaded twice in the process with different values, and through to_dict round trips.",
+}
+for _k, _v in MORE.items():
+    CHECKS[_k]["text"] += _v
+
 
 def main():
     props = [json.loads(l)["id"] for l in open(os.path.join(VERIF, "properties.jsonl"))]
